@@ -346,4 +346,48 @@ theorem prune_preserves_resolves (x : Consumer) (now : Time) (hr : PruneResolves
 example : PruneOnce { (default : Consumer) with prune := [(3, [7, 8]), (5, [9])] } := by
   unfold PruneOnce; decide
 
+theorem isSome_find_setAssoc (l : List (Nat × Nat)) (key v k : Nat)
+    (h : ((l.find? (·.1 == k)).map (·.2)).isSome = true) :
+    (((setAssoc l key v).find? (·.1 == k)).map (·.2)).isSome = true := by
+  by_cases hk : k = key
+  · subst hk; rw [find_setAssoc_same]; rfl
+  · rw [find_setAssoc_other _ _ _ _ hk]; exact h
+
+/-- an assignment keeps "every waiting key still resolves": on a launched consumer the replaced
+    key joins the waiting keys and keeps its index entry; before launch the replaced key's index
+    entry is dropped, and that key was not waiting (it was current) -/
+theorem assign_preserves_resolves (x : Consumer) (t : Time) (v key : Nat)
+    (hwf : KeyWF x) (hp : NotCurrent x) (hr : PruneResolves x) :
+    PruneResolves (assignRecord t v key x) := by
+  intro e he k hk
+  rw [resolveKey_eq]
+  unfold assignRecord at he ⊢
+  cases ho : assignedKey x v with
+  | none =>
+    simp only [ho] at he ⊢
+    have := hr e he k hk
+    rw [resolveKey_eq] at this
+    exact isSome_find_setAssoc _ _ _ _ this
+  | some old =>
+    simp only [ho] at he ⊢
+    by_cases hl : (x.phase == Phase.launched) = true
+    · simp only [hl, if_true] at he ⊢
+      apply isSome_find_setAssoc
+      rcases mem_pruneAppend x.prune t old e he k hk with h | ⟨e0, he0, hk0⟩
+      · have := hwf v old ho
+        rw [resolveKey_eq] at this
+        rw [h, this]; rfl
+      · have := hr e0 he0 k hk0
+        rw [resolveKey_eq] at this
+        exact this
+    · simp only [hl] at he ⊢
+      apply isSome_find_setAssoc
+      have hne : k ≠ old := by
+        intro h; exact hp e he k hk v (by rw [ho, h])
+      have := hr e he k hk
+      rw [resolveKey_eq] at this
+      show (((x.byaddr.filter fun b => b.1 != old).find? (·.1 == k)).map (·.2)).isSome = true
+      rw [find_filter_ne _ _ _ hne]
+      exact this
+
 end ICS.Props.C05
